@@ -246,7 +246,8 @@ class FailTracker(Tracker):
                 ev = self.P.enum_consts.get(kind[5:])
                 return ("fail",) if ev is not None and c == ev[1] else ("ok", c)
             if kind == "huge":
-                return ("ok", c)
+                # functions declared double/complex that nevertheless use the 0 / -1 convention
+                return ("fail",) if c == -1 else ("ok", c)
             return ("ok", c)
         if e.k == "CallExpr":
             return ("tail", e.callee or "?", e.id)
@@ -291,6 +292,11 @@ class FailTracker(Tracker):
 
     def branch(self, st, cond, truth, ctx):
         ints, calls, nrep, cats, failed, flags = st
+        if self.site_marks:
+            mk = self.site_marks.get(cond.strip().id)
+            if mk is not None:
+                flags = flags | {"%s:%s" % (mk, "T" if truth else "F")}
+                st = (ints, calls, nrep, cats, failed, flags)
         c = cond.strip()
         while c.k == "UnaryOperator" and c.op == "!":
             truth = not truth
@@ -348,7 +354,7 @@ class FailTracker(Tracker):
         gk = failure_value_kind(g) if g is not None else None
         failv = None
         if g is not None:
-            failv = {"null": 0, "minus1": -1}.get(gk)
+            failv = {"null": 0, "minus1": -1, "huge": -1}.get(gk)
         elif nm in EXT_FAIL_NULL:
             failv = 0
         elif nm is not None and call.ctype in ("int", "long", "ssize_t"):
